@@ -142,6 +142,15 @@ Proof. vm_compute. reflexivity. Qed.
             for (i_, j_) in ((0, 1), (2, 3), (4, 5), (5, 4), (3, 2), (1, 0)):
                 sk.append(["query", "in_unit", m_, i_, e_, j_, e_])
     hists.insert(3, sk)
+    # squares and cubes of units related by a ratio that is not a power of two (span = 7 cubit), asked for after the same powers were refused
+    # against an unrelated unit of the dimension: digit for digit what a fresh process answers
+    pw = [["unit", "length"], ["unit", "length"], ["unit", "length"], ["equals", 1, 1, ["int", "7", "1"], 0, 1]]
+    for e_ in (2, 3, -2):
+        pw += [["query", "in_unit", ["int", "49", "1"], 0, e_, 2, e_], ["query", "eq", ["int", "49", "1"], 0, e_, 2, e_], ["query", "in_unit", ["int", "49", "1"], 2, e_, 1, e_]]
+    for e_ in (2, 3, -2, 1):
+        for m_ in (["int", "49", "1"], ["float", "343", "1"], ["int", "3", "1"], ["dec", "49", "1"]):
+            pw += [["query", "in_unit", m_, 0, e_, 1, e_], ["query", "in_unit", m_, 1, e_, 0, e_], ["query", "eq", m_, 0, e_, 1, e_]]
+    hists.insert(4, pw)
     # graphs with redundant, slightly inconsistent routes (cycles whose arcs multiply to different numbers, non-dyadic ratios whose
     # float products depend on association): the answer to a query must not depend on which other pairs were converted before,
     # nor on unrelated declarations or re-declarations made in between
@@ -166,7 +175,7 @@ Proof. vm_compute. reflexivity. Qed.
             e = rng.choice([o for o in ops if o[0] == "equals"]); ops.append(eq(e[1], e[4]))                             # re-declare an existing pair
         for _ in range(rng.randint(2, 5)): ops.append(q())
         return ops
-    check_all = {0, 1, 2, 3}      # the fixed histories at the head: every query replayed in a fresh process
+    check_all = {0, 1, 2, 3, 4}      # the fixed histories at the head: every query replayed in a fresh process
     # a family declared redundantly with a rounded figure (x = 2 m, m = 5 z and x = 4 n, n = 1.25 o, o = 2.002 z: x is 10 z or 10.01 z):
     # which route x -> z takes is the library's choice, but the same choice whatever was converted before (fixed corpus)
     def fam(earlier):
@@ -183,6 +192,13 @@ Proof. vm_compute. reflexivity. Qed.
         return ops + [["query", "in_unit", ["int", "1", "1"], 0, 2, 2, 2], ["query", "in_unit", ["int", "3", "1"], 1, 1, 2, 1], ["query", "in_unit", ["int", "3", "1"], 1, 1, 2, 1],
                       ["query", "in_unit", ["int", "1", "1"], 0, 3, 2, 3], ["query", "in_unit", ["int", "5", "1"], 2, 1, 1, 1]]
     hists.append(overflow_history()); check_all.add(len(hists) - 1)
+    # a long ladder of units (each twice the next): the conversion from top to bottom is first asked from deep inside a recursive computation,
+    # where the interpreter runs out of stack, and then from the top level, where it is answered -- as in a process that never asked from the depths
+    NL = 120
+    lad = [["unit", "length"] for _ in range(NL)] + [["equals", k_, 1, ["int", "2", "1"], k_ + 1, 1] for k_ in range(NL - 1)]
+    lad += [["query", "in_unit_deep", ["int", "1", "1"], 0, 1, NL - 1, 1], ["query", "in_unit", ["int", "1", "1"], 0, 1, NL - 1, 1], ["query", "in_unit", ["int", "3", "1"], 0, 1, NL - 1, 1],
+            ["query", "in_unit_deep", ["int", "1", "1"], NL - 1, 1, 0, 1], ["query", "in_unit", ["int", "1", "1"], NL - 1, 1, 0, 1], ["query", "eq", ["int", "1", "1"], 0, 1, NL - 1, 1]]
+    hists.append(lad); check_all.add(len(hists) - 1)
     for earlier in ([], [(0, 4)], [(0, 5), (5, 4)], [(4, 0)], [(1, 4)], [(2, 1), (1, 4), (4, 5), (3, 4)], [(3, 4), (2, 4)], [(0, 3)], [(2, 4), (0, 1)]):
         hists.append(fam(earlier))
     # scales with a zero point (translate) reached through a base unit, converted directly, inside compound units (per-degree) and from
